@@ -581,3 +581,94 @@ update_span = Contract(
     assumptions=['mapped records with reference_start < reference_end (pysam record stub)'],
 )
 UNITS.append(update_span)
+
+
+# ------------------------------------------------------------------------------ the two ejection branches as a whole, on real buffers (bounded)
+# The block contracts above fix the shape of the collect / pop loops.  Whatever the branches look like, after an ejection check the
+# buffer must hold exactly the molecules that could not be emitted yet, in the order they were created (later fragments are offered
+# to the molecules in buffer order), and exactly the others must have been emitted.  Run on the real statements with stand-in
+# molecules: every ejectable / not-ejectable pattern of buffers of up to 5 molecules (pooling 0) and of two hash groups of up to 3
+# molecules (pooling 1).
+def _eject_branch(pooling):
+    def sel(f):
+        import ast
+        ifs = blocks.find_nodes(f, lambda n: isinstance(n, ast.If) and 'check_eject_every' in ast.unparse(n.test)
+                                and 'check_ejection_iter' in ast.unparse(n.test))
+        if not ifs:
+            return []
+        for st in ifs[0].body:
+            if isinstance(st, ast.If) and ast.unparse(st.test) == 'self.pooling_method == 0':
+                return st.body if pooling == 0 else st.orelse
+        return []
+    return sel
+
+
+def eject_branches_bounded(tier, seed):
+    import itertools
+    import json
+    import os
+    from pyvc.blockreplay import run_block
+    from pyvc.contract import import_real
+    cls = import_real(FI, 'MoleculeIterator')
+
+    class Mol:
+        def __init__(self, idx, ej):
+            self.idx, self.ej = idx, ej
+
+        def __finalise__(self):
+            pass
+
+        def can_be_yielded(self, chrom, pos):
+            return self.ej
+
+        def __len__(self):
+            return 1
+
+    def fail(what, detail):
+        out = os.environ.get('VERIF_OUT', '.')
+        os.makedirs(os.path.join(out, 'replays', PROP), exist_ok=True)
+        path = 'replays/%s/eject_branches.json' % PROP
+        json.dump({'property': PROP, 'obligation': '%s/eject.branches' % PROP, 'replay': dict({'status': 'confirmed', 'what': what}, **detail)},
+                  open(os.path.join(out, path), 'w'), indent=1)
+        return {'result': 'violation', 'replay': path, 'confirmed': True}
+    n = 0
+    for size in range(1, 6):
+        for pattern in itertools.product((False, True), repeat=size):
+            it = object.__new__(cls)
+            it.perform_allele_clustering = False
+            it.waiting_fragments, it.yielded_fragments = size, 0
+            it.molecules = [Mol(i, e) for i, e in enumerate(pattern)]
+            ys, final, exc = run_block(FI, 'MoleculeIterator.__iter__', _eject_branch(0),
+                                       {'self': it, 'current_chrom': 'chr1', 'current_position': 100})
+            kept = [m.idx for m in it.molecules]
+            emitted = sorted(m.idx for m in (ys or []))
+            n += 1
+            if exc is not None or kept != [i for i, e in enumerate(pattern) if not e] or emitted != [i for i, e in enumerate(pattern) if e]:
+                return fail('pooling_method 0', {'ejectable': list(pattern), 'emitted': emitted, 'buffer_after': kept,
+                                                 'expected_buffer_in_creation_order': [i for i, e in enumerate(pattern) if not e],
+                                                 'exception': str(exc) if exc else None})
+    for s1, s2 in itertools.product(range(0, 4), range(1, 4)):
+        for pattern in itertools.product((False, True), repeat=s1 + s2):
+            it = object.__new__(cls)
+            it.perform_allele_clustering = False
+            it.waiting_fragments, it.yielded_fragments = s1 + s2, 0
+            mols = [Mol(i, e) for i, e in enumerate(pattern)]
+            it.molecules_per_cell = {'g1': mols[:s1], 'g2': mols[s1:]}
+            ys, final, exc = run_block(FI, 'MoleculeIterator.__iter__', _eject_branch(1),
+                                       {'self': it, 'current_chrom': 'chr1', 'current_position': 100})
+            kept = {g: [m.idx for m in it.molecules_per_cell.get(g, [])] for g in ('g1', 'g2')}
+            want = {'g1': [i for i in range(s1) if not pattern[i]], 'g2': [i for i in range(s1, s1 + s2) if not pattern[i]]}
+            emitted = sorted(m.idx for m in (ys or []))
+            n += 1
+            if exc is not None or kept != want or emitted != [i for i, e in enumerate(pattern) if e]:
+                return fail('pooling_method 1', {'ejectable': list(pattern), 'group_sizes': [s1, s2], 'emitted': emitted,
+                                                 'buffers_after': kept, 'expected_buffers': want, 'exception': str(exc) if exc else None})
+    return {'result': 'clean', 'ejection_checks': n}
+
+
+from pyvc.units import Bounded      # noqa: E402
+eject_branches = Bounded(PROP, 'eject.branches[both pooling methods, every ejectable pattern of small buffers, real statements]',
+                         eject_branches_bounded,
+                         'buffers of 1-5 molecules (pooling 0); two hash groups of 0-3 and 1-3 molecules (pooling 1); all patterns',
+                         'exhaustive run of the real statements against the specification')
+UNITS.append(eject_branches)
